@@ -400,6 +400,8 @@ class Executor:
                              frame, node)
         if isinstance(fv, Func):
             c = self.registry.get(fv.qualname)
+            if fv.qualname in self.opt.get("inline", ()):
+                c = None        # this verification asks for the real body
             if c is not None and not (self.target == fv.qualname
                                       and self.depth == 0) and not c.inline:
                 return c.apply(self, args, kwargs, frame, node)
@@ -738,10 +740,16 @@ class Executor:
                     terms.append(t)
                     continue
             # non boolean operand, or later operands have effects: fork
+            if terms:
+                # settle the symbolic booleans collected so far (python
+                # returns the first operand that decides the result, which
+                # for booleans is False / True itself)
+                comb = z3.And(*terms) if is_and else z3.Or(*terms)
+                if self.fork(comb, "boolop prefix") != is_and:
+                    return not is_and
+                terms = []
             tr = self.truth(v, "boolop")
             if tr != is_and:
-                if terms:
-                    raise OutOfReach("mixed boolean/non-boolean operands")
                 return v
         if terms:
             return mk_bool(z3.And(*terms) if is_and else z3.Or(*terms))
@@ -1002,7 +1010,14 @@ class Executor:
             raise OutOfReach("non-boolean quantifier body")
         guard = z3.And(rng, *conds) if conds else rng
         if is_all:
-            inner = z3.Implies(z3.And(*facts), body) if facts else body
+            # `facts` are type invariants of the elements touched by the body
+            # (ranges of list elements of a schema): true for every index.
+            # In a clause that is being *assumed* they are conjoined, so that
+            # the hypothesis is not weakened to "typed(elem) -> body".
+            if facts and self.opt.get("assume_mode"):
+                inner = z3.And(body, *facts)
+            else:
+                inner = z3.Implies(z3.And(*facts), body) if facts else body
             return Sym(z3.ForAll([j], z3.Implies(guard, inner)), BOOL)
         inner = z3.And(body, *facts) if facts else body
         return Sym(z3.Exists([j], z3.And(guard, inner)), BOOL)
